@@ -519,7 +519,16 @@ func ScenarioPlans(r *mrand.Rand, pool *Pool, n int) []*Plan {
 		e := CertSpec{ID: pool.ReserveID(), KeyID: k, Window: core.Pick(r, "current", "past", "forever"), KidText: kid2, KidKind: kk2}
 		p.Certs = []CertSpec{c, e}
 		sign := func(b uint64, d uint64) *Op { return &Op{Kind: OpSign, Blob: b, DataID: d} }
-		switch i % 5 {
+		switch i % 6 {
+		case 5: // everything the agent still reports is an out-of-window certificate, and the hardware certificate's key is gone
+			p.Class = "scenario-only-invalid-certificates-reported"
+			kx, kkx := GenKeyID(r)
+			x := CertSpec{ID: pool.ReserveID(), KeyID: k2, Window: core.Pick(r, "past", "future", "zero", "one-second-ago"), KidText: kx, KidKind: kkx}
+			c.Window = core.Pick(r, "current", "forever")
+			p.Certs = []CertSpec{c, e, x}
+			p.Initial = []uint64{k}
+			p.Ops = []*Op{op(OpAddHard, c.ID), op(OpDirectAdd, x.ID), op(OpDirectRemove, k), op(core.Pick(r, OpList, OpSigners), 0), op(OpList, 0), sign(c.ID, 1),
+				op(OpDirectAdd, k), op(OpAddHard, c.ID), op(OpDirectAdd, x.ID), op(OpDirectRemove, k), sign(c.ID, 2), op(OpSigners, 0)}
 		case 4: // several out-of-window certificates next to each other in the agent's listing, others after them
 			p.Class = "scenario-adjacent-invalid"
 			bad := func() string { return core.Pick(r, "past", "future", "zero", "inverted", "one-second-ago", "va-2^63") }
